@@ -7,9 +7,8 @@
 (* (write error, or the ranges / (range, expression) pairs read back per   *)
 (* list, the id classes and the emitted sections).  The event is accepted  *)
 (* iff it is what the property allows according to ListWriter:             *)
-(*  - lists the property names as unrepresentable: the write failed;       *)
-(*  - other unrepresentable lists: the write failed, or the read-back      *)
-(*    equals the Meaning;                                                  *)
+(*  - some list cannot be represented in the encoding (the categories the *)
+(*    property names, or ListWriter!CanCarry fails): the write failed;     *)
 (*  - otherwise: written, every list reads back as its Meaning, equal      *)
 (*    lists share an id class, the sections hold one copy per distinct     *)
 (*    list (size of the emission as coded).                                *)
@@ -52,8 +51,7 @@ Unit == /\ l <= Len(Rec) /\ Rec[l].ev = "Unit" /\ l' = l + 1
                                                    /\ SameItems(o.lists[i].items, Meaning(X(ls[i].L), enc, lp, ls[i].fam))
                w == WriteUnit([i \in DOMAIN bd.rt |-> X(bd.rt[i])], [i \in DOMAIN bd.lt |-> X(bd.lt[i])], enc, lp)
            IN
-           IF named THEN o.t = "err"
-           ELSE IF rej THEN o.t = "err" \/ faithful
+           IF rej THEN o.t = "err"
            ELSE /\ faithful
                 /\ o.classes = [i \in DOMAIN ls |-> ClassOf(ls, bd.ids, i)]
                 /\ o.other = 0
